@@ -1310,12 +1310,25 @@ class Message(ABC):
 
         # Got some data over the wire
         self._serialized_on_wire = True
+        if size == 0:
+            # An empty message: nothing to read, the stream belongs to what follows.
+            return self
         proto_meta = self._betterproto
         read = 0
         for parsed in load_fields(stream):
             field_name = proto_meta.field_name_by_number.get(parsed.number)
             if not field_name:
                 self._unknown_fields += parsed.raw
+                # Unknown fields count towards the announced size as well
+                if size is not None:
+                    read += len(parsed.raw)
+                    if read == size:
+                        break
+                    elif read > size:
+                        raise ValueError(
+                            f"Expected message of size {size}, but read {read} bytes - "
+                            "there is no message of the expected size in the stream."
+                        )
                 continue
 
             meta = proto_meta.meta_by_field_name[field_name]
